@@ -139,6 +139,24 @@ def _assigned_names(stmts) -> set:
     return out
 
 
+def _is_sequence_value(v) -> bool:
+    """v is certainly a list / array / bytes-like value (used to recognise in-place extension)"""
+    k = v[0]
+    if k in ("lst", "slc"):
+        return True
+    if k == "slice":
+        return _is_sequence_value(v[1]) or v[1][0] == "f"
+    if k == "newb":
+        return v[1] in ("list", "array", "bytearray")
+    if k == "comp":
+        return v[1] == "list"
+    if k in ("nary", "bin") and v[1] == "*":
+        return any(isinstance(x, tuple) and x and _is_sequence_value(x) for x in (v[2] if k == "nary" else v[2:]))
+    if k == "call" and v[1] in (("g", "list"), ("g", "bytearray"), ("g", "array")):
+        return True
+    return False
+
+
 class Walker:
     def __init__(self, prog: Program, ctx: Optional[str] = None, inline: str = "light", max_depth: int = 8,
                  param_types: Optional[Dict[str, str]] = None, max_states: int = 4000,
@@ -439,6 +457,10 @@ class Walker:
         for s, cur in self.ev(load, st):
             for s2, v in self.ev(n.value, s):
                 val = self.mk_bin(op, cur, v)
+                if op == "+" and _is_sequence_value(v) and cur[0] not in ("c", "lst", "tup"):
+                    # `x += <sequence>`: x is a sequence too, and list / array / bytearray extend IN PLACE - whatever x aliases changes
+                    self.emit(s2, "call", n, name="__iadd__", target=None, recv=cur, args=[v], kwargs={}, inlined=False, mutates=True, result=cur)
+                    self.bump(s2, cur)
                 out.extend(self.assign(n.target, val, s2, n, aug=op, addend=v))
         return out
 
@@ -1068,7 +1090,11 @@ class Walker:
         return ("sub", cont, idx, self.epoch(st, cont))
 
     def mk_bin(self, op, a, b):
+        if op == "+" and a[0] == "tup" and b[0] == "tup":
+            return ("tup", tuple(a[1]) + tuple(b[1]))  # tuple concatenation (not commutative: decided before normalisation)
         n = ("bin", op, a, b)
+        if op == "+" and (_is_sequence_value(a) or _is_sequence_value(b)):
+            return n  # sequence concatenation keeps its operand order
         return _norm_node(n) or n
 
     def e_BinOp(self, n, st):
@@ -1168,7 +1194,12 @@ class Walker:
 
     def e_JoinedStr(self, n, st):
         nodes = [v.value for v in n.values if isinstance(v, ast.FormattedValue)]
-        return [(s, ("fstr", tuple(v))) for s, v in self.ev_seq(nodes, st)]
+        # the literal text, conversions and format specs, so that f"{x:x}" and f"{x}" are different values
+        tmpl = "".join(v.value.replace("{", "{{").replace("}", "}}") if isinstance(v, ast.Constant) and isinstance(v.value, str) else
+                       "{" + ("!" + chr(v.conversion) if getattr(v, "conversion", -1) not in (-1, None) else "") +
+                       (":" + ast.unparse(v.format_spec)[2:-1] if getattr(v, "format_spec", None) is not None else "") + "}"
+                       for v in n.values)
+        return [(s, ("fstr", tuple(v), tmpl)) for s, v in self.ev_seq(nodes, st)]
 
     def e_FormattedValue(self, n, st):
         return self.ev(n.value, st)
